@@ -33,23 +33,35 @@ def rule_watford_guard(prog, fixture=False):
     r = RuleResult("R-C13-1", "the value compared with 2 in the Watford test carries all ten bits of the entry's "
                    "start sector", floor=0 if fixture else 1)
     ev = Evaluator(prog, catalog_input_hook)
-    for fn in prog.fnby("smells_like_watford", required=not fixture):
-        # the comparison with constant 2
-        cmp_node = None
-        for n in fn.walk():
-            if n.get("k") == "BinaryOperator" and n.get("op") == "==":
-                for a, b in ((n["c"][0], n["c"][1]), (n["c"][1], n["c"][0])):
-                    if folded(b) == 2 and folded(a) is None:
-                        cmp_node = (n, a)
-        if cmp_node is None:
-            raise AnalysisBroken("smells_like_watford: comparison with sector 2 not found")
-        n, val = cmp_node
-        # environment: loop position := 8 (first entry); entries are 8 bytes apart
+    for top in prog.fnby("smells_like_watford", required=not fixture):
+        # the comparison may live in the function itself or in a helper it hands the catalogue sector to,
+        # with the sector number 2 passed as an argument
+        cands = [(top, {})]
+        for n in top.walk():
+            if is_call(n) and n.get("fn") and n.get("k") == "CallExpr":
+                for t in prog.call_targets(top, n):
+                    consts = {}
+                    for p_, a in zip(t.params, call_args(n)):
+                        if folded(a) is not None:
+                            consts[p_["d"]] = folded(a)
+                    cands.append((t, consts))
+        found = None
+        for fn, consts in cands:
+            for n in fn.walk():
+                if n.get("k") == "BinaryOperator" and n.get("op") == "==":
+                    for a, b in ((n["c"][0], n["c"][1]), (n["c"][1], n["c"][0])):
+                        bs = strip_all(b)
+                        is_two = folded(b) == 2 or (bs.get("k") == "DeclRefExpr" and consts.get(bs.get("d")) == 2)
+                        if is_two and folded(a) is None:
+                            found = (fn, n, a)
+        if found is None:
+            r.undecided.append("smells_like_watford: no comparison of a catalogue value with sector 2 found (directly or in a helper)")
+            continue
+        fn, n, val = found
         env = {}
         for v in fn.walk():
             if v.get("k") == "VarDecl" and v.get("n") == "pos" and v.get("w"):
                 env[v["d"]] = BV.const(8, v["w"])
-        # resolve the compared value through its local definition
         e = strip_all(val)
         if e.get("k") == "DeclRefExpr":
             for v in fn.walk():
@@ -58,12 +70,13 @@ def rule_watford_guard(prog, fixture=False):
         try:
             got = ev._expr(fn, e, env, 0)
         except Unsupported as ex:
-            raise AnalysisBroken("cannot evaluate the start-sector expression of smells_like_watford: %s" % ex)
+            r.undecided.append("cannot evaluate the start-sector expression of the Watford guard: %s" % ex)
+            continue
         gv = got[0][1]
         w = max(gv.width, 16)
         want = expected_bv(byte_bits("s1", 15) + byte_bits("s1", 14, 0, 1), w)
         diff = compare(gv.resize(w), want)
-        r.add("%s::%s::start==2" % (fn.relfile(), fn.qn), fn.loc(n), not diff,
+        r.add("%s::%s::start==2" % (top.relfile(), top.qn), fn.loc(n), not diff,
               "all 10 bits of the start sector" if not diff else
               "the sector-2-in-use guard does not look at the whole start sector (%s): a file starting at sector "
               "0x102/0x202/0x302 is mistaken for one starting in sector 2, or vice versa" % "; ".join(diff[:3]))
